@@ -23,6 +23,7 @@ EXPLANATION = (
     "result; in process_input unhandled_input is not reachable when the widget handled the key/mouse event and is reached (or the redraw command) when it did not."
     ' Added after seed round 3: signal_restore is understood also when folded into a loop over (signal, saved handler) pairs and the restored expression may replace only a None / false saved value by SIG_DFL; (5) inside the batch loop of process_input the top widget (and anything derived from it) is read afresh for every event.'
     ' Round 4: a signal that signal_init() does not replace (SIGCONT) is restored only under a flag raised where it is replaced; the Twisted capturing wrapper catches BaseException (C13.1).'
+    ' Round 5: (7) TrioEventLoop takes off at most the one ExceptionGroup layer its own nursery adds.'
 )
 NOT_DECIDED = "That the terminal really ends up in its initial modes (needs a pty), delivery order across reads, redraw-before-wait timing, failures inside MainLoop.start()/stop() themselves."
 ASSUMPTIONS = ["glib_loop.py cannot be imported here; its reports are informational only."]
@@ -434,6 +435,27 @@ def _carry_over(ctx: Ctx):
     return r
 
 
+def rule_exception_identity(ctx: Ctx) -> RuleResult:
+    """'any other exception propagates out of run() unchanged'.  Trio wraps what a task raises in an ExceptionGroup -
+    one layer, added by the nursery of TrioEventLoop._main_task - and _handle_main_loop_exception() takes exactly that
+    layer off again.  Taking off more (a loop around the unwrapping) dismantles a one-member ExceptionGroup the
+    callback raised itself: run() would raise the inner exception instead of the group."""
+    p = ctx.p
+    rr = RuleResult("PASS", "C12.7", "TrioEventLoop removes at most the one ExceptionGroup layer its own nursery adds (the unwrapping is not repeated)", floor=1)
+    fi = p.func("urwid.event_loop.trio_loop.TrioEventLoop._handle_main_loop_exception")
+    prm = fi.params[1]
+    unwraps = [n for n in fi.own_nodes() if isinstance(n, ast.Assign) and any(isinstance(t, ast.Name) and t.id == prm for t in n.targets) and "exceptions" in ast.unparse(n.value)]
+    if not unwraps:
+        raise AnalysisError("_handle_main_loop_exception: the statement that unwraps the exception group was not found")
+    loops = [l for l in fi.own_nodes() if isinstance(l, (ast.While, ast.For))]
+    for u in unwraps:
+        inside = [l for l in loops if any(x is u for x in ast.walk(l))]
+        rr.inst(norm(u, 50), True, {"unwrap": norm(u, 60), "repeated": bool(inside)})
+        if inside:
+            rr.add(finding("PASS", fi, inside[0], f"`{norm(u, 50)}` is repeated by `{norm(inside[0], 50)}`: besides the layer trio's nursery adds it also takes apart a one-member ExceptionGroup that the callback itself raised, so run() raises the inner exception instead of the exception the callback raised", construct="exception group unwrapped repeatedly"))
+    return rr
+
+
 def run(ctx: Ctx):
     return [
         rule_run_restores(ctx),
@@ -442,6 +464,7 @@ def run(ctx: Ctx):
         rule_pipeline(ctx),
         rule_fresh_topmost(ctx),
         _carry_over(ctx),
+        rule_exception_identity(ctx),
     ]
 
 
@@ -450,6 +473,7 @@ from ..mutants import Mut  # noqa: E402
 _M = "urwid/event_loop/main_loop.py"
 _P = "urwid/display/_posix_raw_display.py"
 MUTANTS = [
+    Mut("trio-unwraps-every-singleton-group", "urwid/event_loop/trio_loop.py", "TrioEventLoop._handle_main_loop_exception", "        if isinstance(exc, BaseExceptionGroup) and len(exc.exceptions) == 1:", "        while isinstance(exc, BaseExceptionGroup) and len(exc.exceptions) == 1:", "PASS|event_loop.trio_loop.TrioEventLoop._handle_main_loop_exception"),
     Mut("sigcont-restored-unconditionally", "urwid/display/_posix_raw_display.py", "Screen.signal_restore", "        if self._sigcont_replaced:\n            self.signal_handler_setter(signal.SIGCONT, self._prev_sigcont_handler or signal.SIG_DFL)\n            self._sigcont_replaced = False", "        self.signal_handler_setter(signal.SIGCONT, self._prev_sigcont_handler or signal.SIG_DFL)", "PAIR|display._posix_raw_display.Screen.signal_restore"),
     Mut("twin-topmost-captured-but-unused", "urwid/event_loop/main_loop.py", "MainLoop.process_input", "        something_handled = False\n", "        something_handled = False\n        topmost = self._topmost_widget\n        del topmost\n", twin=True),
     Mut("topmost-stale-in-batch", "urwid/event_loop/main_loop.py", "MainLoop.process_input", "        something_handled = False\n\n        for key in keys:\n            if key == \"window resize\":\n                continue\n\n            if isinstance(key, str):\n                if self._topmost_widget.selectable():\n                    if handled_key := self._topmost_widget.keypress(self.screen_size, key):", "        something_handled = False\n        topmost = self._topmost_widget\n\n        for key in keys:\n            if key == \"window resize\":\n                continue\n\n            if isinstance(key, str):\n                if topmost.selectable():\n                    if handled_key := topmost.keypress(self.screen_size, key):", "SNAP|event_loop.main_loop.MainLoop.process_input"),
